@@ -374,7 +374,9 @@ func (fr *Frame) callWithSpec(callee *ssa.Function, spec *FuncSpec, args []Val, 
 		fx.assume(st.guard, le(st.alloc, na))
 		st.alloc = na
 	}
-	if !spec.Extern && !spec.Pure {
+	if !spec.Extern && !spec.Pure && !spec.Trusted {
+		// (a trusted contract speaks for the whole call: its body is not
+		// looked at, neither for effects on the ghost logs)
 		fr.havocGhostsForCall(callee, st)
 	}
 	// results
